@@ -148,6 +148,29 @@ FIRST = {
     "C19-11": ("missed", "warm caches were always whole and files never began with a blank line. Added torn cache entries and such files."),
     "C20-11": ("missed", "no member of the referenced group read its own group's variables mid-run. Added."),
     "C20-12": ("missed", "chains were never interrupted. Added: another run on the same instance while the chain generator is part-way."),
+    # ---- round 7 (first encounter measured with the checks as committed before the round: /verif 070a605) ----
+    "C04-13": ("missed - not chased", "its trigger is a member whose scan part does not parse; for such groups the unchanged tree itself has results_manager.is_valid != run manifest all_valid (the member gets no result), so the statement's domain (generated, parseable csvpaths) ends before it. Recorded in DESIGN 11.3."),
+    "C04-14": ("missed", "config.ini never changed during a scenario. Added: the error policy in config.ini is edited between two runs on one instance."),
+    "C05-13": ("caught", ""),
+    "C05-14": ("caught", ""),
+    "C07-13": ("caught", ""),
+    "C07-14": ("missed by C07 (needs a managed run: outside its twins), caught by C09", "no I/O fault inside a run. Added to C09: one write to data.csv/unmatched.csv torn by ENOSPC; a failure that is on record relaxes the clauses, a silent one does not. Rechecked with ./check C09 (seeded/C07-14/check_with)."),
+    "C08-13": ("missed", "results were only read after the run. Added a consumer that reads len(result) and result.lines on every yielded line."),
+    "C08-14": ("caught (the simulated clock stands still by default)", ""),
+    "C09-13": ("caught", ""),
+    "C09-14": ("missed", "no manager call ever failed on the instance before a run. Added failed add_named_paths_from_dir/_from_json/set_named_files_from_json/set_named_paths calls."),
+    "C10-13": ("caught", ""),
+    "C10-14": ("caught", ""),
+    "C11-13": ("missed", "faults only tore the copy. Added the generic I/O fault seam (verifsim/iofault.py): the k-th file-system call inside the store fails, then the registration is retried."),
+    "C11-14": ("missed", "source names were ASCII. Added a file name that is not valid UTF-8."),
+    "C12-13": ("missed", "no fault between the steps of an add. Added the I/O fault seam to adds, followed by a retry or by putting the previous content back."),
+    "C12-14": ("missed", "same seam: a failed READ of manifest.json during an add."),
+    "C18-13": ("caught", ""),
+    "C18-14": ("caught", ""),
+    "C19-13": ("missed", "no header cell held a character that only str.splitlines() treats as a line break. Added \\x0c, \\x1c/\\x1d, \\x85, \\u2028."),
+    "C19-14": ("missed", "every job used the same function table. Added an external function known only through one job's own imports file, after a csvpath naming an unknown function."),
+    "C20-13": ("caught", ""),
+    "C20-14": ("missed", "a chain was never interrupted by ANOTHER instance running the same group. Added."),
 }
 
 
@@ -208,7 +231,7 @@ def main():
             "first_encounter": FIRST.get(sid, ("", ""))[0],
             "strengthening": FIRST.get(sid, ("", ""))[1],
             "current_check": {
-                "command": f"git -C /repo apply seeded/{sid}/patch.diff && ./check {pid} --tier quick ; git -C /repo checkout -- .",
+                "command": (old.get("current_check") or {}).get("command") or f"git -C /repo apply seeded/{sid}/patch.diff && ./check {pid} --tier quick ; git -C /repo checkout -- .",
                 "exit": (old.get("current_check") or {}).get("exit"),
                 "violation_clauses": clauses,
             },
